@@ -130,6 +130,15 @@ def run_task(task):
             walk(lambda: ExponentialSmoothingTracker(alpha=a),
                  lambda tr, h, ex, w: check_es(tr, h, alpha if exact else F(float(alpha)), ex, w), alphabet, L, conv, exact,
                  f"ExponentialSmoothingTracker(alpha={alpha})[{name}]", counter)
+        elif kind == 'es-reassign':
+            # the public alpha attribute is re-assigned before the first value: the closed form for the NEW alpha must hold
+            a1, a2, alphabet = arg
+            def mk():
+                t = ExponentialSmoothingTracker(alpha=a1)
+                t.alpha = a2
+                return t
+            walk(mk, lambda tr, h, ex, w: check_es(tr, h, a2, ex, w), alphabet, L, ident, True,
+                 f"ExponentialSmoothingTracker(alpha={a1}) with tracker.alpha re-assigned to {a2}", counter)
         elif kind == 'lin-welford':
             counter['transitions'] += linearity(WelfordTracker, L, ALPHA_A, "WelfordTracker")
         elif kind == 'lin-es':
@@ -166,6 +175,8 @@ def plan(tier):
     tasks.append(('es', (F(1, 4), [5, 3, 250, 0], np.uint8, False, 'np.uint8'), L - 1))
     tasks.append(('es', (F(1, 2), [100, -100, 50], np.int8, False, 'np.int8'), L - 1))
     tasks.append(('lin-welford', None, 2 if tier != 'thorough' else 3))
+    for a1, a2 in ((F(1, 10), F(1)), (F(1, 2), F(1, 4)), (F(1), F(1, 3)), (F(0), F(1, 2))):
+        tasks.append(('es-reassign', (a1, a2, ALPHA_A), 3))
     return tasks
 
 
